@@ -7,8 +7,14 @@
 //        c connect+close, f request/response/close, k two keep-alive requests, d partial head+close, b partial body+close,
 //        h request+shutdown(WR)+read to EOF, r request+RST, i silence until the server closes, j partial head then silence,
 //        m request/response then silence until the server closes, z slow 24 MB answer requested and the connection closed at once, w 24 MB answer never read (write blocked across several idle scans) then RST
+//        s 16 MB file asked for (Http::serveFile), 17 bytes read through a 4 kB receive buffer, close;  S the file downloaded completely;
+//        t answer sent after ResponseWriter::timeoutAfter(300 ms) was armed (the timer is disarmed by the answer)
+//   After every round as many fresh connections as the round had (at most 8) are opened together and each sends one
+//   request: it must receive exactly its own answer and nothing else (what an earlier connection on the same descriptor
+//   number left unsent must not reach it).
 //     -> <T|H> conns=<connections made> logs=<sorted per-peer callback logs: C connection, I input/request (collapsed), D disconnection>
 //            after_disc=<callbacks seen for a peer after its disconnection> fd_delta=<open descriptors at the end - idle baseline>
+//            stale=<fresh connections that received something else than exactly their own answer>
 #include <pistache/endpoint.h>
 #include <pistache/http.h>
 #include <pistache/listener.h>
@@ -61,6 +67,9 @@ struct Log
     }
 } g_log;
 
+std::string g_file; // a 16 MB file for the file-transfer behaviours
+std::atomic<int> g_stale { 0 };
+
 class RawHandler : public Tcp::Handler
 {
 public:
@@ -91,6 +100,13 @@ public:
         }
         else if (req.resource() == "/big")
             response.send(Http::Code::Ok, std::string(24u << 20, 'x'));
+        else if (req.resource() == "/file")
+            Http::serveFile(response, g_file);
+        else if (req.resource() == "/timed")
+        {
+            response.timeoutAfter(std::chrono::milliseconds(300));
+            response.send(Http::Code::Ok, "hello /timed");
+        }
         else
             response.send(Http::Code::Ok, "hello " + req.resource());
     }
@@ -137,6 +153,33 @@ bool read_response(int fd)
         size_t n = static_cast<size_t>(atoll(b.c_str() + cl + 16));
         return b.size() >= he + 4 + n;
     }, 3000);
+}
+
+// n fresh connections, opened together so that they take the n lowest free descriptor numbers of the server; each
+// must get exactly the answer to its own request
+template <typename Check>
+void probe(uint16_t port, size_t n, const std::string& request, Check exact)
+{
+    std::vector<int> fds;
+    for (size_t i = 0; i < n; ++i)
+    {
+        int fd = pv::connect_loopback(port);
+        if (fd >= 0)
+            fds.push_back(fd);
+    }
+    for (int fd : fds)
+        pv::send_all(fd, request);
+    for (int fd : fds)
+    {
+        std::string buf;
+        pv::read_until(fd, buf, [&](const std::string& b) { return exact(b) >= 0; }, 3000);
+        // anything that follows the answer?
+        std::string more;
+        pv::read_until(fd, more, [](const std::string& m) { return !m.empty(); }, 30);
+        if (exact(buf) != 1 || !more.empty())
+            ++g_stale;
+        ::close(fd);
+    }
 }
 
 void raw_client(char b, uint16_t port)
@@ -227,6 +270,27 @@ void http_client(char b, uint16_t port)
         pv::send_all(fd, "GET /slowbig HTTP/1.1\r\nHost: a\r\n\r\n");
         ::close(fd);
         break;
+    case 's':
+    {
+        int small = 4096;
+        setsockopt(fd, SOL_SOCKET, SO_RCVBUF, &small, sizeof small);
+        pv::send_all(fd, "GET /file HTTP/1.1\r\nHost: a\r\n\r\n");
+        std::string buf;
+        pv::read_until(fd, buf, [](const std::string& x) { return x.size() >= 17; }, 3000);
+        std::this_thread::sleep_for(std::chrono::milliseconds(20));
+        ::close(fd);
+        break;
+    }
+    case 'S':
+        pv::send_all(fd, "GET /file HTTP/1.1\r\nHost: a\r\n\r\n");
+        read_response(fd);
+        ::close(fd);
+        break;
+    case 't':
+        pv::send_all(fd, "GET /timed HTTP/1.1\r\nHost: a\r\n\r\n");
+        read_response(fd);
+        ::close(fd);
+        break;
     case 'w':
     {
         // a 24 MB answer is never read: the write blocks, the idle scan finds the peer again and again
@@ -242,9 +306,10 @@ void http_client(char b, uint16_t port)
     }
 }
 
-template <typename Client>
-std::string drive(const char* tag, uint16_t port, int rounds, const std::string& behaviours, Client client)
+template <typename Client, typename Probe>
+std::string drive(const char* tag, uint16_t port, int rounds, const std::string& behaviours, Client client, Probe probe_round)
 {
+    g_stale = 0;
     // warm-up connection, then the idle baseline
     client('c', port);
     for (int k = 0; k < 400 && g_log.count('D') < 1; ++k)
@@ -266,10 +331,17 @@ std::string drive(const char* tag, uint16_t port, int rounds, const std::string&
         }
         for (auto& t : ts)
             t.join();
+        // every connection of the round has been released: the next ones get the same descriptor numbers
+        for (int k = 0; k < 800 && g_log.count('D') < conns; ++k)
+            std::this_thread::sleep_for(std::chrono::milliseconds(5));
+        size_t n = std::min<size_t>(ts.size(), 8);
+        probe_round(n);
+        conns += n;
     }
     for (int k = 0; k < 800 && g_log.count('D') < conns; ++k)
         std::this_thread::sleep_for(std::chrono::milliseconds(5));
-    std::this_thread::sleep_for(std::chrono::milliseconds(80));
+    // disarmed response timers (300 ms) have fired by then
+    std::this_thread::sleep_for(std::chrono::milliseconds(behaviours.find('t') != std::string::npos ? 450 : 80));
     int end = count_fds();
 
     std::vector<std::string> logs;
@@ -287,7 +359,7 @@ std::string drive(const char* tag, uint16_t port, int rounds, const std::string&
         os << (i ? "," : "") << logs[i];
     if (logs.empty())
         os << "-";
-    os << " after_disc=" << after << " fd_delta=" << (end - base);
+    os << " after_disc=" << after << " fd_delta=" << (end - base) << " stale=" << g_stale.load();
     return os.str();
 }
 } // namespace
@@ -307,7 +379,10 @@ static std::string handle(const std::string& line)
         listener.setHandler(std::make_shared<RawHandler>());
         listener.bind(Address("127.0.0.1", Port(0)));
         listener.runThreaded();
-        std::string out = drive("T", listener.getPort(), rounds, t[3], raw_client);
+        uint16_t port   = listener.getPort();
+        std::string out = drive("T", port, rounds, t[3], raw_client, [port](size_t n) {
+            probe(port, n, "data", [](const std::string& b) { return b == "ok" ? 1 : (b.size() >= 2 ? 0 : -1); });
+        });
         listener.shutdown();
         return out;
     }
@@ -319,8 +394,34 @@ static std::string handle(const std::string& line)
                 .bodyTimeout(std::chrono::milliseconds(600)));
     ep.setHandler(std::make_shared<HttpHandler>());
     ep.serveThreaded();
-    std::string out = drive("H", ep.getPort(), rounds, t[3], http_client);
+    if (t[3].find_first_of("sS") != std::string::npos)
+    {
+        char name[] = "/tmp/pv_lifecycle_XXXXXX";
+        int ffd     = mkstemp(name);
+        std::string block(1u << 20, 'f');
+        for (int i = 0; i < 16; ++i)
+            if (::write(ffd, block.data(), block.size()) != static_cast<ssize_t>(block.size()))
+                return "BADCASE cannot write the file";
+        ::close(ffd);
+        g_file = name;
+    }
+    uint16_t port   = ep.getPort();
+    std::string out = drive("H", port, rounds, t[3], http_client, [port](size_t n) {
+        probe(port, n, kReq, [](const std::string& b) {
+            static const std::string want_body = "hello /x";
+            auto he = b.find("\r\n\r\n");
+            if (he == std::string::npos)
+                return b.size() > 4096 || (!b.empty() && b.compare(0, std::min<size_t>(b.size(), 12), std::string("HTTP/1.1 200").substr(0, std::min<size_t>(b.size(), 12))) != 0) ? 0 : -1;
+            if (b.compare(0, 12, "HTTP/1.1 200") != 0)
+                return 0;
+            if (b.size() < he + 4 + want_body.size())
+                return -1;
+            return b.substr(he + 4) == want_body ? 1 : 0;
+        });
+    });
     ep.shutdown();
+    if (!g_file.empty())
+        ::unlink(g_file.c_str());
     return out;
 }
 
